@@ -11,27 +11,28 @@ namespace GoRes.Props.C17
 open GoRes GoRes.Pattern
 
 /-- Validity is exactly "the tokeniser accepts it": one grammar for `IsValid`. -/
-theorem isValid_iff_parse (p : Str) : isValid p = (parse p).isSome := by
-  sorry
+theorem isValid_iff_parse (p : Str) : isValid p = (parse p).isSome :=
+  isValid_eq_parse p
 
 /-- every well-formed token list is what the parser reads back from its rendering -/
-theorem parse_render (ts : List Tok) (h : wfPat ts = true) (hne : ts ≠ []) : parse (render ts) = some ts := by
-  sorry
+theorem parse_render (ts : List Tok) (h : wfPat ts = true) (hne : ts ≠ []) : parse (render ts) = some ts :=
+  parse_render_of_wf ts h hne
 
 /-- `Matches` is the token-wise relation, also when the right-hand side is itself a pattern. -/
 theorem matches_spec (pt st : List Tok) (hp : wfPat pt = true) (hs : wfPat st = true) :
-    «matches» (render pt) (render st) = tokMatches pt st := by
-  sorry
+    «matches» (render pt) (render st) = tokMatches pt st :=
+  matchesLoop_spec pt st hp (wfPat_all_ok hs)
 
 /-- `Values` is the token-wise extraction on concrete names. -/
 theorem values_spec (pt st : List Tok) (hp : wfPat pt = true) (hs : isName st = true) :
-    values (render pt) (render st) = tokValues pt st [] := by
-  sorry
+    values (render pt) (render st) = tokValues pt st [] :=
+  valuesLoop_spec pt st [] hp (isName_sOk hs)
 
 /-- a valid pattern matches a name exactly when extraction succeeds -/
 theorem matches_iff_values (pt st : List Tok) (hp : wfPat pt = true) (hs : isName st = true) :
     «matches» (render pt) (render st) = (values (render pt) (render st)).isSome := by
-  sorry
+  rw [matches_spec pt st hp (wfPat_of_isName hs), values_spec pt st hp hs]
+  exact tokMatches_eq_tokValues_isSome pt st [] (isName_ne_full hs)
 
 /-- extracted values substituted back give a pattern that still matches the name,
 and give the name itself when the pattern has no anonymous wildcard.
@@ -41,14 +42,14 @@ theorem replace_values_matches (pt st : List Tok) (m : List (Str × Str))
     (hp : wfPat pt = true) (hs : isName st = true) (hd : distinctTags pt = true)
     (hv : values (render pt) (render st) = some m) :
     «matches» (replaceTags (render pt) m) (render st) = true ∧
-    (hasAnon pt = false → replaceTags (render pt) m = render st) := by
-  sorry
+    (hasAnon pt = false → replaceTags (render pt) m = render st) :=
+  replace_values_tok pt st m hp hs hd hv
 
 /-- a pattern covers another pattern exactly when every name of the second matches the first -/
 theorem covers_iff (pt qt : List Tok) (hp : wfPat pt = true) (hq : wfPat qt = true) (hne : qt ≠ []) :
     «matches» (render pt) (render qt) = true ↔
-      ∀ st, isName st = true → «matches» (render qt) (render st) = true → «matches» (render pt) (render st) = true := by
-  sorry
+      ∀ st, isName st = true → «matches» (render qt) (render st) = true → «matches» (render pt) (render st) = true :=
+  covers_tok pt qt hp hq hne
 
 /-- `IndexWildcard` is the byte offset of the first wildcard token -/
 def firstWild : List Tok → Nat → Int
@@ -58,36 +59,106 @@ def firstWild : List Tok → Nat → Int
 
 theorem indexWildcard_spec (pt : List Tok) (hp : wfPat pt = true) :
     indexWildcard (render pt) = firstWild pt 0 := by
-  sorry
+  have h : ∀ ts off, firstWild ts off = firstWildL ts off := by
+    intro ts
+    induction ts with
+    | nil => intro off; rfl
+    | cons t r ih => intro off; cases t <;> simp [firstWild, firstWildL, ih]
+  rw [h]
+  exact iwLoop_spec pt 0 hp
 
 /-- validators are consistent: a path is a wildcard-free pattern; a valid name part is a
 valid one-token path and a valid resource id; a non-empty path is a valid resource id -/
 theorem isValidPath_spec (p : Str) :
     isValidPath p = (p.isEmpty || match parse p with
       | some ts => ts.all (fun t => match t with | .lit _ => true | _ => false)
-      | none => false) := by
-  sorry
+      | none => false) :=
+  isValidPath_eq p
 
-theorem part_is_rid (p : Str) (h : isValidPart p = true) : isValidRID p = true := by
-  sorry
+theorem part_is_rid (p : Str) (h : isValidPart p = true) : isValidRID p = true :=
+  isValidPart_rid p h
 
-theorem path_is_rid (p : Str) (h : isValidPath p = true) (hne : p ≠ []) : isValidRID p = true := by
-  sorry
+theorem path_is_rid (p : Str) (h : isValidPath p = true) (hne : p ≠ []) : isValidRID p = true :=
+  isValidPath_rid p h hne
 
 /-- a name (what routing accepts) is a valid resource id -/
-theorem name_is_rid (st : List Tok) (hs : isName st = true) : isValidRID (render st) = true := by
-  sorry
+theorem name_is_rid (st : List Tok) (hs : isName st = true) : isValidRID (render st) = true :=
+  name_rid st ((isName_iff st).1 hs).1 ((isName_iff st).1 hs).2
 
 /-- `IDTransformer`: id → resource id (ReplaceTag) → id (the tag's value) is the identity for
 every id that is a valid name part -/
 theorem id_roundtrip (pt : List Tok) (t id : Str) (hp : wfPat pt = true) (hd : distinctTags pt = true)
     (ht : t ∈ tagsOf pt) (hid : isValidPart id = true) :
-    ∃ m, values (render pt) (replaceTag (render pt) t id) = some m ∧ mapGet m t = some id := by
-  sorry
+    ∃ m, values (render pt) (replaceTag (render pt) t id) = some m ∧ mapGet m t = some id :=
+  id_roundtrip_tok pt t id hp hd ht hid
 
 /-! ## non-vacuity: the hypotheses are met by concrete non-trivial inputs -/
 -- a=97 b=98 c=99 x=120 '$'=36 '.'=46 '>'=62
 example : wfPat [.lit [97], .tag [120], .lit [98, 36, 99], .full] = true := by decide
 example : isName [.lit [97], .lit [97, 36, 98]] = true := by decide
+
+-- Go-level behaviour on concrete byte strings
+attribute [local simp] Ch.dot Ch.dollar Ch.star Ch.gt Ch.qmark
+set_option linter.unusedSimpArgs false
+-- "a$b" vs "aXY": a `$` in the middle of a token is an ordinary byte
+example : «matches» [97, 36, 98] [97, 88, 89] = false := by
+  simp [«matches», matchesLoop]
+-- "a.$x.>" matches "a.b.c.d"
+example : «matches» [97, 46, 36, 120, 46, 62] [97, 46, 98, 46, 99, 46, 100] = true := by
+  simp [«matches», matchesLoop, skipTok]
+-- "a.$x.>" does not match "a.b" (`>` needs at least one token) nor "b.c.d"
+example : «matches» [97, 46, 36, 120, 46, 62] [97, 46, 98] = false := by
+  simp [«matches», matchesLoop, skipTok]
+example : «matches» [97, 46, 36, 120, 46, 62] [98, 46, 99, 46, 100] = false := by
+  simp [«matches», matchesLoop, skipTok]
+-- "a.$x.b" on "a.c.b" extracts x = "c"
+example : values [97, 46, 36, 120, 46, 98] [97, 46, 99, 46, 98] = some [([120], [99])] := by
+  simp [values, valuesLoop, valuesLit, skipTok, takeTok, mapSet]
+example : isValid [97, 46, 36, 120, 46, 62] = true := by decide
+example : isValid [97, 46, 62, 46, 98] = false := by decide        -- "a.>.b"
+example : isValid [97, 46, 36, 36] = false := by decide             -- "a.$$": empty tag
+example : parse [97, 46, 36, 120, 46, 62] = some [.lit [97], .tag [120], .full] := by decide
+example : render [.lit [97], .tag [120], .lit [98, 36, 99], .full]
+    = [97, 46, 36, 120, 46, 98, 36, 99, 46, 62] := by decide
+example : indexWildcard [97, 98, 46, 36, 120] = 3 := by decide     -- "ab.$x"
+example : isValidPath [97, 46, 98, 36] = true := by decide          -- "a.b$"
+example : isValidPart [36, 120] = true := by decide                 -- "$x" is a valid id part
+
+-- hypotheses of `matches_spec` / `values_spec` / `matches_iff_values`
+example : wfPat [.lit [97], .tag [120], .star, .lit [98]] = true ∧
+    isName [.lit [97], .lit [99], .lit [100], .lit [98]] = true ∧
+    tokMatches [.lit [97], .tag [120], .star, .lit [98]]
+      [.lit [97], .lit [99], .lit [100], .lit [98]] = true := by decide
+
+-- hypotheses of `replace_values_matches`: pattern "a.$x.b", name "a.c.b", m = {x ↦ c};
+-- the conclusion is then the concrete statement `ReplaceTags` gives back "a.c.b"
+example : replaceTags [97, 46, 36, 120, 46, 98] [([120], [99])] = [97, 46, 99, 46, 98] := by
+  have h := replace_values_matches [.lit [97], .tag [120], .lit [98]]
+    [.lit [97], .lit [99], .lit [98]] [([120], [99])] (by decide) (by decide) (by decide)
+    (by simp [render, joinDots, values, valuesLoop, valuesLit, skipTok, takeTok, mapSet])
+  exact h.2 (by decide)
+
+-- hypotheses of `covers_iff`: "a.>" covers "a.$x.*"
+example : ∀ st, isName st = true →
+    «matches» (render [.lit [97], .tag [120], .star]) (render st) = true →
+    «matches» (render [.lit [97], .full]) (render st) = true :=
+  (covers_iff [.lit [97], .full] [.lit [97], .tag [120], .star] (by decide) (by decide)
+    (by simp)).1 (by simp [render, joinDots, «matches», matchesLoop, skipTok])
+
+-- hypotheses of `id_roundtrip`: pattern "a.$x.$y", tag "y", id "$1" (ids may start with `$`)
+example : ∃ m, values (render [.lit [97], .tag [120], .tag [121]])
+      (replaceTag (render [.lit [97], .tag [120], .tag [121]]) [121] [36, 49]) = some m ∧
+    mapGet m [121] = some [36, 49] :=
+  id_roundtrip [.lit [97], .tag [120], .tag [121]] [121] [36, 49] (by decide) (by decide)
+    (by simp [tagsOf]) (by decide)
+
+-- `distinctTags` cannot be dropped from `replace_values_matches`: with "$x.$x" on "a.b" the
+-- map keeps only x ↦ b, and the substituted pattern "b.b" no longer matches "a.b"
+example : wfPat [.tag [120], .tag [120]] = true ∧ distinctTags [.tag [120], .tag [120]] = false := by
+  decide
+example : values [36, 120, 46, 36, 120] [97, 46, 98] = some [([120], [98])] := by
+  simp [values, valuesLoop, valuesLit, skipTok, takeTok, mapSet]
+example : «matches» (replaceTags [36, 120, 46, 36, 120] [([120], [98])]) [97, 46, 98] = false := by
+  simp [replaceTags, replace, replaceLoop, skipTok, takeTok, mapGet, «matches», matchesLoop]
 
 end GoRes.Props.C17
